@@ -72,6 +72,9 @@ def str2msg(text):
 
     for arg in args:
         name, value = arg.split('=', 1)
+        if name in msg or name == 'type':
+            # (The type is already given by the first word.)
+            raise ValueError(f'{name} appears more than once')
         if name == 'time':
             value = _parse_time(value)
         elif name == 'data':
